@@ -187,8 +187,19 @@ def main():
     except Exception as e:  # noqa
         direct.append({"law": "a dataset whose names need quoting is answered in every response kind", "error": repr(e)[:300]})
     n = 150 if T == "quick" else 2500
-    for i in range(n):
+    # corpus (independent of the seed): a String column before a Byte column; a projection naming the columns in another order
+    q3 = ("seq", "q", (("base", "a", "i", (), ()), ("base", "b", "i", (), ()), ("base", "c", "h", (), ())),
+          ((1, 10, 100), (2, 20, 200), (3, 30, 300)))
+    q3ca = ("seq", "q", (q3[2][2], q3[2][0]), tuple((row[2], row[0]) for row in q3[3]))
+    sb = ("seq", "q", (("base", "s", "S", (), ()), ("base", "b", "B", (), ()), ("base", "n", "i", (), ())),
+          (("ab", 7, 1), ("", 255, 2), ("abcde", 0, 3)))
+    corpus = [(("dataset", "c0", (sb,)), "", ("dataset", "c0", (sb,))),
+              (("dataset", "c1", (q3,)), "q.c,q.a", ("dataset", "c1", (q3ca,))),
+              (("dataset", "c2", (q3,)), "q.c,q.a&q.a>1", ("dataset", "c2", (("seq", "q", q3ca[2], q3ca[3][1:]),)))]
+    for i in range(n + len(corpus)):
         desc = G.gen_dataset(rng)
+        if i < len(corpus):
+            desc = corpus[i][0]
         backend = "numpy"
         # lazy backends cannot describe an empty sequence (known findings C04 / C15): numpy backend here
         ok = True
@@ -205,6 +216,8 @@ def main():
         if not ok:
             continue
         ce, cdesc = ("", desc) if rng.random() < 0.35 else constrain(rng, desc)
+        if i < len(corpus):
+            desc, ce, cdesc = corpus[i]
         stats["requests"] += 1
         stats["constrained"] += bool(ce)
         stats["with_selection"] += "&" in ce
